@@ -65,7 +65,8 @@ def eval_case(case):
 
 
 def activity_case(rng, thorough=False):
-    if rng.random() < 0.3:
+    strip = rng.random() < 0.4
+    if rng.random() < (0.6 if strip else 0.3):
         c = circ.xor_tree(rng)        # long waveforms at the ports (capture windows, overflow markers)
     else:
         c = circ.rand_circuit(rng, n_gates=rng.randint(2, 16 if not thorough else 40), p_dangling=0.05,
@@ -79,9 +80,9 @@ def activity_case(rng, thorough=False):
         else:
             a_ctrl.append([-1, 0, 0])
     return {'kind': 'activity', 'circuit': base64.b64encode(pickle.dumps(c)).decode(), 'a_ctrl': a_ctrl,
-            'caps': rng.choice([4, 8, 16, 'skewed', 'skewed', 'perline']), 'dseed': rng.randint(0, 2**31 - 1), 'sseed': rng.randint(0, 2**31 - 1),
+            'caps': rng.choice([4, 8, 16, 'skewed', 'skewed', 'perline'] + (['branchsmall'] * 4 if strip else [])), 'dseed': rng.randint(0, 2**31 - 1), 'sseed': rng.randint(0, 2**31 - 1),
             'sims': rng.choice([1, 2, 3]), 'cuda': rng.random() < 0.3, 'props': rng.choice([1, 1, 2]), 'multi': rng.random() < 0.5,
-            'time': rng.choice(['M', '10', '25.5', '40'])}
+            'time': rng.choice(['M', '10', '25.5', '40']), 'strip': strip}
 
 
 def run_activity(case):
@@ -95,13 +96,16 @@ def run_activity(case):
     s_len = len(c.s_nodes)
     if case['caps'] == 'skewed':      # small capacities on the low line indices, large ones elsewhere
         capv = [4 if i < s_len + 2 else crng.choice([16, 20, 24]) for i in range(nn)]
+    elif case['caps'] == 'branchsmall':   # fan-out branches ask for less than their stems (with strip_forks they share the stem's region)
+        br = set(l.index for f in c.forks.values() for l in f.outs if l is not None)
+        capv = [4 if i in br else crng.choice([12, 16, 24]) for i in range(nn)]
     elif case['caps'] == 'perline':
         capv = [crng.choice([4, 8, 12, 16, 24]) for _ in range(nn)]
     else:
         capv = case['caps']
     for caps in (capv, 256):
         srng = random.Random(case['sseed'])
-        ws = wc.make_sim(c, delays, case['sims'], c_caps=caps, cuda=case['cuda'], a_ctrl=a_ctrl)
+        ws = wc.make_sim(c, delays, case['sims'], c_caps=caps, cuda=case['cuda'], a_ctrl=a_ctrl, strip=case.get('strip', False))
         i, t, f = wc.rand_stim(srng, ws.s_len, case['sims'])
         wc.assign(ws, i, t, f)
         if case['multi']: wc.overwrite_inputs(ws, srng)
@@ -120,12 +124,15 @@ def oracle_activity(case, c, ws, ws_big):
     ops = np.array(ws.ops)
     S = np.array(ws.s)
     tm = TMAX if case['time'] == 'M' else float(case['time'])
-    # capture results at ports vs recount from the captured waveform
+    # capture results at ports vs recount from the captured waveform; the waveform is read with the capacity of the signal
+    # that OWNS the memory (the op output / input slot written there), not with the capacity recorded for the output slot:
+    # a slot or stripped branch that records a smaller capacity than its stem would make capture and oracle truncate alike
+    own = wc.owner_caps(ws)
     for j in range(ws.s_len):
         idx = ws.ppo_offset + j
         if int(ws.c_locs[idx]) < 0: continue
         for s in range(case['sims']):
-            ents, term = wc.read_wave(cc, int(ws.c_locs[idx]), int(ws.c_caps[idx]), s)
+            ents, term = wc.read_wave(cc, int(ws.c_locs[idx]), own.get(int(ws.c_locs[idx]), int(ws.c_caps[idx])), s)
             exp = py_capture(ents, term, tm)
             got = {'init': S[3, j, s], 'eat': S[4, j, s], 'lst': S[5, j, s], 'final': S[6, j, s], 'val': S[8, j, s], 'ovl': S[10, j, s]}
             for k in exp:
@@ -198,7 +205,7 @@ def corr_activity(ck, n, thorough=False):
             ok, obs, exp, ovf = False, {'raised': f'{type(ex).__name__}: {ex}'[:300]}, None, False
         ck.case(key=('act', cs['circuit'][:60], cs['dseed'], cs['caps'], cs['cuda']), nontrivial=True,
                 sample={k: v for k, v in cs.items() if k not in ('circuit', 'a_ctrl')},
-                tag=['activity', f"cuda:{cs['cuda']}", f"caps:{cs['caps']}", f"props:{cs['props']}", 'overflow' if ovf else 'no-overflow', 'time:' + cs['time']])
+                tag=['activity', f"cuda:{cs['cuda']}", f"caps:{cs['caps']}", f"strip:{cs.get('strip', False)}", f"props:{cs['props']}", 'overflow' if ovf else 'no-overflow', 'time:' + cs['time']])
         if not ok:
             cls = 'mock-cuda-atomic' if (obs and 'atomic' in str(obs.get('raised', ''))) else 'activity'
             ck.violation(cls, 'capture / overflow indicator / accumulated activity does not match the waveforms', cs, obs, exp)
